@@ -169,3 +169,27 @@ pub fn run_hair_px(l: &[i128]) -> Vec<i128> {
     }
     vec![touched, far, gaps, first[0], first[1], first[2], dep, edge_bad]
 }
+
+/// args: x0 y0 x1 y1 l t r b (bit patterns) -> -1 | -2 | the clipped end points (line_clipper::intersect)
+pub fn run_line_clip(l: &[i128]) -> Vec<i128> {
+    if l.len() != 8 {
+        return vec![-3];
+    }
+    #[cfg(tiny_skia_verif)]
+    {
+        use crate::{b, f};
+        let clip = match tiny_skia::Rect::from_ltrb(f(l[4]), f(l[5]), f(l[6]), f(l[7])) {
+            Some(c) => c,
+            None => return vec![-2],
+        };
+        let src = [tiny_skia::Point::from_xy(f(l[0]), f(l[1])), tiny_skia::Point::from_xy(f(l[2]), f(l[3]))];
+        return match tiny_skia::verif_hooks::line_clipper_intersect(src, &clip) {
+            None => vec![-1],
+            Some(d) => vec![b(d[0].x), b(d[0].y), b(d[1].x), b(d[1].y)],
+        };
+    }
+    #[allow(unreachable_code)]
+    {
+        vec![-8]
+    }
+}
